@@ -403,7 +403,7 @@ def optStr (E : ElemImpl ε) : Option ε → String
   | some v => fmtElem E v
   | none => "none"
 
-def runDef (M : Nat) (offset : Nat) (E : ElemImpl ε) (ldeBlowup : Nat) (d : Desc) (dt : Data) : String :=
+def runDef (tw : Bool) (M : Nat) (offset : Nat) (E : ElemImpl ε) (ldeBlowup : Nat) (d : Desc) (dt : Data) : String :=
   let O := E.O
   let n := d.n
   let (nt, nb) := (d.cons.length + d.auxCons.length, d.asserts.length + d.auxAsserts.length)
@@ -416,7 +416,7 @@ def runDef (M : Nat) (offset : Nat) (E : ElemImpl ε) (ldeBlowup : Nat) (d : Des
   else
     let degs := d.cons.map (·.1) ++ d.auxCons.map (·.1)
     let ceB := ceBlowup degs
-    if !(isPow2 ldeBlowup && 2 ≤ ldeBlowup && ldeBlowup ≤ 128 && ceB ≤ ldeBlowup) then "bad-op"
+    if !(isPow2 ldeBlowup && 2 ≤ ldeBlowup && ldeBlowup ≤ 128 && ceB ≤ ldeBlowup) || (tw && ceB != ldeBlowup) then "bad-op"
     else match setNumTransitionExemptions n degs d.e with
     | .panic _ => "bad-op"
     | .ok _ =>
@@ -435,7 +435,7 @@ def runDef (M : Nat) (offset : Nat) (E : ElemImpl ε) (ldeBlowup : Nat) (d : Des
           let air : Air ε := ⟨n, d.e, d.width, d.auxWidth, d.periodic.map (fun p => p.map O.ofNat),
             d.cons.map (·.2), d.auxCons.map (·.2), d.cons.map (·.1), d.auxCons.map (·.1), ma, aa⟩
           let (tco, bco, _) := drawCoefficients coeffs nt nb
-          let k := numCompositionColumns degs n d.e
+          let k := numCompColumns degs n d.e
           match prep O air, main.mapM (interpolate O), aux.mapM (interpolate O),
                 mkDomain O n ceB ldeBlowup (emb offset) with
           | some P, some mp, some ap, some D =>
@@ -460,8 +460,7 @@ def runDef (M : Nat) (offset : Nat) (E : ElemImpl ε) (ldeBlowup : Nat) (d : Des
 
 end Run
 
-def handle : List String → String
-  | ["def", f, ext, blowup, data, desc] =>
+def handleDef (tw : Bool) (f ext blowup data desc : String) : String :=
     match field? f, nat? ext, nat? blowup with
     | some F, some x, some b =>
       match data.toList with
@@ -472,19 +471,24 @@ def handle : List String → String
           else
             let T := mkPowTable F (if d.n ≤ 4096 ∧ b ≤ 128 then d.n * b else 1)
             let g := F.generator
-            if x = 1 then runDef F.M g (baseImpl F T) b d dt
+            if x = 1 then runDef tw F.M g (baseImpl F T) b d dt
             else if x = 2 then
               match ext2? F with
-              | some X => runDef F.M g (quadImpl F X T) b d dt
+              | some X => runDef tw F.M g (quadImpl F X T) b d dt
               | none => "-"
             else if x = 3 then
               match ext3? F with
-              | some X => runDef F.M g (cubeImpl F X T) b d dt
+              | some X => runDef tw F.M g (cubeImpl F X T) b d dt
               | none => "-"
             else "-"
         | _, _ => "bad-op"
       | _ => "-"
     | _, _, _ => "-"
+
+/-- `deft` differs from `def` only in the constructor of the prover's domain (same values) -/
+def handle : List String → String
+  | ["def", f, ext, blowup, data, desc] => handleDef false f ext blowup data desc
+  | ["deft", f, ext, blowup, data, desc] => handleDef true f ext blowup data desc
   | _ => "-"
 
 end Drv.C17
